@@ -195,11 +195,20 @@ namespace occa {
     }
 
     void variable_t::printWarning(const std::string &message) const {
-      source->printWarning(message);
+      // Unnamed variables don't have a source token
+      if (source) {
+        source->printWarning(message);
+      } else {
+        vartype.printWarning(message);
+      }
     }
 
     void variable_t::printError(const std::string &message) const {
-      source->printError(message);
+      if (source) {
+        source->printError(message);
+      } else {
+        vartype.printError(message);
+      }
     }
 
     printer& operator << (printer &pout,
